@@ -41,6 +41,9 @@ type c01Case struct {
 	Seed         uint64 `json:"seed"`
 	Blocks       int    `json:"blocks"`
 	NoBackground bool   `json:"no_background,omitempty"`
+	// Tie selects the election-tie variant: 8 validator entities with EQUAL escrow, MaxValidators 3,
+	// no rewards, an election every 2 blocks (tie-breaks at the cutoff must not depend on map order).
+	Tie bool `json:"tie,omitempty"`
 	// informational
 	Height  int64    `json:"height,omitempty"`
 	Replica string   `json:"replica,omitempty"`
@@ -64,6 +67,7 @@ type c01Run struct {
 	seed   uint64
 	blocks int
 	bg     bool
+	tie    bool
 	sum    *coqout.Summary
 	w      *coqout.Writer
 	rng    *prng.R
@@ -138,18 +142,19 @@ type violation struct {
 }
 
 func (c *c01Run) theCase() c01Case {
-	return c01Case{Seed: c.seed, Blocks: c.blocks, NoBackground: !c.bg}
+	return c01Case{Seed: c.seed, Blocks: c.blocks, NoBackground: !c.bg, Tie: c.tie}
 }
 
 // run executes the history; it returns a violation or nil.
 func (c *c01Run) run() *violation {
 	c.rng = prng.New(c.seed ^ 0xc01c01)
 	var err error
-	c.g, err = muxdrv.NewGenesis(c.seed, muxdrv.GenesisOpts{
-		Validators:    4,
-		Accounts:      10,
-		EpochInterval: int64(3 + c.seed%4),
-	})
+	opts := muxdrv.GenesisOpts{Validators: 4, Accounts: 10, EpochInterval: int64(3 + c.seed%4)}
+	if c.tie {
+		opts = muxdrv.GenesisOpts{Validators: 8, Accounts: 10, EpochInterval: 2, EqualEscrow: 160_000,
+			MaxValidators: 3 + int(c.seed%2), NoRewards: true}
+	}
+	c.g, err = muxdrv.NewGenesis(c.seed, opts)
 	if err != nil {
 		return &violation{What: "genesis generation failed: " + err.Error(), Case: c.theCase()}
 	}
@@ -346,6 +351,9 @@ func (c *c01Run) genTx(ref *muxdrv.Replica, s sender, sd *muxdrv.StakingDump) tx
 	var kind string
 	opCost := uint64(1000)
 	k := r.Intn(100)
+	if c.tie && k >= 33 && k < 58 {
+		k = r.Intn(33) // keep the validators' escrows equal: no add/reclaim escrow
+	}
 	switch {
 	case k < 25:
 		kind, opCost = "transfer", 1000
@@ -568,6 +576,9 @@ func (c *c01Run) block(b int) *violation {
 	cur := c.chain.ValidatorsAt(h)
 	var cands []int
 	for i, v := range g.Validators {
+		if i >= len(c.reps) {
+			break // only the first four validators have a replica that can propose
+		}
 		for _, cv := range cur {
 			if bytes.Equal(cv.Address, v.ConsAddr) {
 				cands = append(cands, i)
@@ -588,7 +599,7 @@ func (c *c01Run) block(b int) *violation {
 	ss := c.senders()
 	sd, _ := muxdrv.DumpStaking(prop, 0)
 	var gens []txGen
-	if r.Chance(35) {
+	if !c.tie && r.Chance(35) {
 		if t := c.newValidatorStep(prop); t != nil {
 			gens = append(gens, *t)
 		}
@@ -641,7 +652,7 @@ func (c *c01Run) block(b int) *violation {
 	if h > g.Doc.Height+1 && r.Chance(12) {
 		n := 1 + r.Intn(2)
 		for i := 0; i < n; i++ {
-			if r.Chance(50) && len(c.slashed) < 2 {
+			if !c.tie && r.Chance(50) && len(c.slashed) < 2 {
 				vi := r.Intn(4)
 				if vi == p {
 					vi = (vi + 1) % 4
@@ -1049,7 +1060,7 @@ func (c *c01Run) background(i int, stop chan struct{}, wg *sync.WaitGroup) {
 
 // ---------- entry point ----------
 
-func c01Main(seed uint64, out string, blocks, runs int, replay string, noBg bool) {
+func c01Main(seed uint64, out string, blocks, runs int, replay string, noBg bool, tieRuns, tieBlocks int) {
 	sum := coqout.NewSummary("one evaluation = one block executed by one replica and compared; distinct_nontrivial = number of distinct (history, height) blocks that carry at least one user transaction, evidence, a non-unanimous vote pattern or an epoch transition (each executed on 4 replicas/paths)")
 	w := coqout.NewWriter(out, c01Header, "run_case", "coutput_eqb", 60)
 	var cases []c01Case
@@ -1075,9 +1086,17 @@ func c01Main(seed uint64, out string, blocks, runs int, replay string, noBg bool
 		for i := 0; i < runs; i++ {
 			cases = append(cases, c01Case{Seed: seed*1000 + uint64(i), Blocks: blocks, NoBackground: noBg})
 		}
+		for i := 0; i < tieRuns; i++ {
+			cases = append(cases, c01Case{Seed: seed*1000 + 500 + uint64(i), Blocks: tieBlocks, NoBackground: noBg, Tie: true})
+		}
 	}
 	for _, cs := range cases {
-		run := &c01Run{seed: cs.Seed, blocks: cs.Blocks, bg: !cs.NoBackground, sum: sum, w: w}
+		run := &c01Run{seed: cs.Seed, blocks: cs.Blocks, bg: !cs.NoBackground, tie: cs.Tie, sum: sum, w: w}
+		if cs.Tie {
+			sum.Count("history_variant", "election-tie")
+		} else {
+			sum.Count("history_variant", "standard")
+		}
 		v := run.run()
 		sum.Evaluations += run.evals
 		sum.DistinctNontrivial += run.distinct
